@@ -339,6 +339,22 @@ def sync_case(ctx, svc, inj, draw, kinds, only=None, variant=None):
                 'as-reference' if ok_ref else 'clean-failure'
                 if (ok_clean or partial_ok) else 'BAD'))
             stats.nontriv(stable_hash(['sync', variant, k, kind]))
+            if err is not None and (ok_clean or partial_ok) and \
+                    not retry_scope:
+                # a failed start-up is followed by another one in the same
+                # process (the WSGI server re-loads the application): that
+                # one must complete the synchronisation
+                err2 = run()
+                got2 = dump(svc.dbpath)
+                stats.evaluations += 1
+                if err2 is not None or view_diff(view(ref), view(got2)):
+                    raise Violation(
+                        {'clause': 'startup-after-failed-startup-incomplete',
+                         'kind': kind, 'op': 'startup-sync'},
+                        {'case': {'k': k, 'kind': kind, 'sync': variant},
+                         'first_error': err, 'second_error': err2,
+                         'fault': info, 'diff_vs_reference':
+                             view_diff(view(ref), view(got2))[:6]})
             if ok_ref or ((ok_clean or partial_ok) and not retry_scope):
                 continue
             raise Violation(
